@@ -65,7 +65,7 @@ def build(ns, section, fields, no_nan=False):
     las = ns.las.LASFile()
     las.append_curve("DEPT", np.array([999.5, 1000.0]), unit="M", descr="depth")  # the rows differ in digit count
     las.append_curve("GR", np.array([10.5, 11.5 if no_nan else np.nan]), unit="API", descr="gamma")
-    las.append_curve("RHOB", np.array([2.25, 2.5]), unit="G/C3", descr="density")
+    las.append_curve("RHOB", np.array([-12345.5, 2.5]), unit="G/C3", descr="density")  # '-12345.50000' is wider than the default field
     las.append_curve("NPHI", np.array([-0.125, 0.375]), unit="V/V", descr="porosity")
     las.well["COMP"].value = "ACME OIL"
     las.well["DATE"].value = "13-DEC-86"
